@@ -272,10 +272,12 @@ class Compatible(Harness):
     def inputs(cls, ctx, cfg):
         c = [real_var(n) for n in ('ax0', 'ay0', 'ax1', 'ay1', 'bx0', 'by0', 'bx1', 'by1')]
         assume(AND(c[2] - c[0] >= 1, c[3] - c[1] >= 1, c[6] - c[4] >= 1, c[7] - c[5] >= 1))
-        return dict(cov=c, elev=int_var('elev'))
+        oa, ob = real_var('opacity_a'), real_var('opacity_b')
+        assume(AND(oa >= 0, oa <= 1, ob >= 0, ob <= 1))     # equal values are allowed: (a over b)@o is not a@o over b@o
+        return dict(cov=c, elev=int_var('elev'), oa=oa, ob=ob)
 
     @classmethod
-    def prop(cls, ctx, cfg, cov, elev):
+    def prop(cls, ctx, cfg, cov, elev, oa=None, ob=None):
         from mapproxy.srs import SRS, SupportedSRS
         w, ly, covm = ctx['w'], ctx['ly'], ctx['cov']
         srs = SRS('EPSG:25832')
@@ -302,6 +304,10 @@ class Compatible(Harness):
         a.opacity = b.opacity = None
         if diff == 'opacity':
             b.opacity = 0.5
+        if diff in ('opacity-a', 'opacity-both'):
+            a.opacity = oa
+        if diff in ('opacity-b', 'opacity-both'):
+            b.opacity = ob
         if diff == 'res_range':
             a.res_range = ctx['g'].resolution_range(min_res=100000, max_res=1000)
         if diff == 'transparent_color':
@@ -354,7 +360,7 @@ def obligations(tier, seed):
     specs.append(spec(MOD, 'SubImageLabel', 'padded-sub-image-is-labelled-transparent', cfg={}, cost=5))
     for n in ((2, 3, 4, 5) if tier == 'thorough' else (2, 3, 4)):
         specs.append(spec(MOD, 'Combine', 'combined-layers/n%d' % n, cfg=dict(n=n)))
-    for d in ('none', 'srs', 'formats', 'coverage', 'opacity', 'transparent_color', 'fwd', 'res_range'):
+    for d in ('none', 'srs', 'formats', 'coverage', 'opacity', 'opacity-a', 'opacity-b', 'opacity-both', 'transparent_color', 'fwd', 'res_range'):
         specs.append(spec(MOD, 'Compatible', 'combine-compatible/%s' % d, cfg=dict(differs=d)))
     twins = dict(OpaqueSound=ocfgs[0], FastPath={}, Combine=dict(n=3), Compatible=dict(differs='coverage'), SubImageLabel={})
     for h, c in twins.items():
@@ -375,8 +381,8 @@ META = dict(
                 'with one full-size upstream request, the source is not transparent and has no partial opacity -- so skipping layers below '
                 'cannot change the picture; (2) LayerMerger.merge returns the single layer unchanged only if no clipping, no global coverage, '
                 'same size, (layer opaque or output transparent) and no partial opacity; (3) combined_layers merges only adjacent layers and '
-                'preserves bottom-to-top order for every combinable relation; (4) sources that differ in SRS list, formats, coverage, opacity, '
-                'transparent colour or forwarded dimension values are never combined.',
+                'preserves bottom-to-top order for every combinable relation; (4) sources that differ in SRS list, formats, coverage, '
+                'transparent colour or forwarded dimension values, or of which any has an opacity (symbolic values, equal ones included), are never combined.',
     functions=sorted(set(OpaqueSound.functions + FastPath.functions + Combine.functions + Compatible.functions + SubImageLabel.functions)),
     bounds='query rectangles of fixed pixel size anywhere within +-1e7; coverage any rectangle; opacity in (0, 1]; stacks of up to 4 (thorough 5) layers',
     outside='PIL pixel arithmetic (alpha_composite/paste/blend/putalpha: C code), paletted/colour-key handling, polygon coverages, opacity 0 '
